@@ -287,13 +287,20 @@ def sharing(progeny_structs):
     return set(frozenset(v) for v in groups.values())
 
 
-def _mk_pgmat(A, x, n, m):
+def _mk_pgmat(A, x, n, m, unsorted=False):
     from pybrops.popgen.gmat.DensePhasedGenotypeMatrix import DensePhasedGenotypeMatrix
+    if unsorted:
+        # parents whose variants are stored out of (chromosome, position) order and are not grouped: mating must not reorder anything
+        chrgrp = numpy.array([2, 1, 2, 1, 2][:m], dtype="int64")
+        phypos = numpy.array([9, 7, 5, 3, 1][:m], dtype="int64")
+    else:
+        chrgrp, phypos = numpy.ones(m, dtype="int64"), numpy.arange(m) + 1
     pg = DensePhasedGenotypeMatrix(mat=A, taxa=numpy.array(["p%d" % i for i in range(n)], dtype=object), taxa_grp=numpy.arange(n) + 100,
-                                   vrnt_chrgrp=numpy.ones(m, dtype="int64"), vrnt_phypos=numpy.arange(m) + 1,
+                                   vrnt_chrgrp=chrgrp, vrnt_phypos=phypos,
                                    vrnt_name=numpy.array(["snp%d" % j for j in range(m)], dtype=object),
                                    vrnt_genpos=numpy.arange(m) * 0.1, vrnt_xoprob=x)
-    pg.group_vrnt()
+    if not unsorted:
+        pg.group_vrnt()
     return pg
 
 
@@ -322,7 +329,7 @@ class Protocol(Harness):
         util = importlib.import_module(UTIL)
         n, m = self.params["n"], self.params["m"]
         A = inp["A"]
-        pg = _mk_pgmat(A.copy(), inp["x"], n, m)
+        pg = _mk_pgmat(A.copy(), inp["x"], n, m, unsorted=bool(self.params.get("unsorted")))
         meta0 = _meta(pg)
         summ = Summary()
         saved = util.mat_meiosis
@@ -438,7 +445,8 @@ def _protocol_concrete_replay(self, vals):
     fails = []
     for seed in range(6):
         x = numpy.array([0.5] + [0.3] * (m - 1))
-        pg = _mk_pgmat(A.copy(), x, n, m)
+        pg = _mk_pgmat(A.copy(), x, n, m, unsorted=bool(self.params.get("unsorted")))
+        names0 = [str(v) for v in pg.vrnt_name]
         p = getattr(mod, prot)(progeny_counter=pc0, family_counter=fc0, rng=numpy.random.RandomState(seed))
         try:
             prog = p.mate(pg, xc, numpy.array(nm) if isinstance(nm, list) else nm, numpy.array(npg) if isinstance(npg, list) else npg, nself=self.params["nself"])
@@ -465,6 +473,8 @@ def _protocol_concrete_replay(self, vals):
                 fails.append("DH progeny %d heterozygous" % k)
         if not numpy.array_equal(pg.mat, A):
             fails.append("parental genotypes modified")
+        if [str(v) for v in prog.vrnt_name] != names0:
+            fails.append("marker metadata not carried over in the parental order: %s vs %s" % ([str(v) for v in prog.vrnt_name], names0))
         if fails:
             break
     return (len(fails) > 0), ("real mate() with real RandomState: " + ("; ".join(fails[:3]) if fails else "no structural difference observable in 6 seeded runs"))
@@ -585,6 +595,11 @@ def obligations(tier):
                         h = Protocol(prot=prot, n=max(3, npar), m=2, xconfig=xc, nmating=nm_, nprogeny=npg_, nself=nself, pc=pc, fc=fc)
                         h.weight = 1
                         obs.append(h)
+    # ungrouped parents with variants out of order: one configuration per protocol
+    for prot, (modname, npar, prefix) in PROTS.items():
+        obs.append(Protocol(prot=prot, n=max(3, npar), m=2, xconfig=[list(range(npar))], nmating=1, nprogeny=1, nself=0, pc=0, fc=0, unsorted=True))
+        if tier == "thorough":
+            obs.append(Protocol(prot=prot, n=max(3, npar), m=2, xconfig=[list(range(npar)), [0] * npar], nmating=[1, 2], nprogeny=[2, 1], nself=1, pc=0, fc=0, unsorted=True))
     e2e = [("TwoWayCross", [[0, 1]], 1, 1, 0, 2), ("TwoWayCross", [[0, 1]], 1, 1, 1, 1), ("SelfCross", [[1]], 1, 1, 0, 2),
            ("TwoWayDHCross", [[1, 0]], 1, 1, 0, 2), ("ThreeWayCross", [[2, 0, 1]], 1, 1, 0, 1)]
     if tier == "thorough":
